@@ -233,13 +233,13 @@ def check_C11(res, ctx):
 
 def check_C12(res, ctx):
     from . import corrupt
-    ndb = 3 if ctx.quick else 12
+    ndb = 3 if ctx.quick else 36
     for i in range(ndb):
         rng = rng_for(ctx.seed, "C12", i)
         corrupt.check_db(res, ctx, rng, "merged" if i % 3 == 2 else "plain", 4000 if ctx.quick else 40000)
-    for i in range(1 if ctx.quick else 6):
+    for i in range(1 if ctx.quick else 16):
         corrupt.check_db(res, ctx, rng_for(ctx.seed, "C12m", i), "multiblock", 0)
-    for i in range(4 if ctx.quick else 60):
+    for i in range(4 if ctx.quick else 300):
         corrupt.random_damage(res, ctx, rng_for(ctx.seed, "C12r", i), i)
     return "every single-bit flip of every byte of the data / hint / marker files of small databases (exhaustive unless counted under files_sampled), " \
            "then Open + dump + Fold; random multi-byte overwrites, truncations, zero runs and 64-byte garbage on larger ones; oracle: every served " \
